@@ -30,6 +30,8 @@ struct HeartbeatState {
     interval: Duration,
     timeout: Duration,
     last_received: tokio::sync::Mutex<Instant>,
+    // Number of keep-alive responses received so far
+    responses: std::sync::atomic::AtomicU64,
 }
 
 /// Session manages multiple streams over a single TLS connection
@@ -124,6 +126,7 @@ impl Session {
                 interval: cfg.interval,
                 timeout: cfg.timeout,
                 last_received: tokio::sync::Mutex::new(Instant::now()),
+                responses: std::sync::atomic::AtomicU64::new(0),
             })
         });
 
@@ -759,6 +762,9 @@ impl Session {
                 if let Some(heartbeat_state) = &self.heartbeat {
                     let mut last = heartbeat_state.last_received.lock().await;
                     *last = Instant::now();
+                    heartbeat_state
+                        .responses
+                        .fetch_add(1, std::sync::atomic::Ordering::SeqCst);
                 }
             }
             _ => {
@@ -1207,9 +1213,20 @@ impl Session {
                 let session_id = session.id();
                 let mut ticker = time::interval(heartbeat_state.interval);
                 ticker.set_missed_tick_behavior(MissedTickBehavior::Delay);
+                // The peer is dead when a keep-alive request stays unanswered for `timeout`.
+                // (Comparing "time since the last response" with the timeout once per tick
+                // declared a healthy peer dead whenever timeout < interval, because the last
+                // response is always about one interval old when the next tick comes.)
+                // `awaiting` = (when the oldest unanswered request was sent, responses seen then)
+                let mut awaiting: Option<(Instant, u64)> = None;
 
                 loop {
-                    ticker.tick().await;
+                    // Wake up at the next tick, or earlier when an outstanding request expires
+                    let deadline = awaiting.map(|(sent, _)| sent + heartbeat_state.timeout);
+                    let tick = tokio::select! {
+                        _ = ticker.tick() => true,
+                        _ = async { time::sleep_until(deadline.unwrap()).await }, if deadline.is_some() => false,
+                    };
 
                     if session.is_closed() {
                         tracing::debug!(
@@ -1219,12 +1236,24 @@ impl Session {
                         break;
                     }
 
-                    let last_seen = {
-                        let guard = heartbeat_state.last_received.lock().await;
-                        Instant::now().saturating_duration_since(*guard)
-                    };
+                    // Any response since the outstanding request was sent proves the peer alive
+                    let responses = heartbeat_state
+                        .responses
+                        .load(std::sync::atomic::Ordering::SeqCst);
+                    if let Some((_, seen)) = awaiting
+                        && responses != seen
+                    {
+                        awaiting = None;
+                    }
 
-                    if last_seen > heartbeat_state.timeout {
+                    let expired = awaiting.is_some_and(|(sent, _)| {
+                        Instant::now().saturating_duration_since(sent) >= heartbeat_state.timeout
+                    });
+                    if expired {
+                        let last_seen = {
+                            let guard = heartbeat_state.last_received.lock().await;
+                            Instant::now().saturating_duration_since(*guard)
+                        };
                         tracing::warn!(
                             session_id = session_id,
                             elapsed_ms = last_seen.as_millis() as u64,
@@ -1239,11 +1268,28 @@ impl Session {
                         }
                         break;
                     }
+                    if !tick {
+                        continue;
+                    }
 
-                    if let Err(e) = session
-                        .write_control_frame(Frame::control(Command::HeartRequest, 0))
-                        .await
-                    {
+                    // A transport that no longer takes data (dead peer, full send buffer) must not
+                    // park the monitor inside the write: bound the request by the timeout as well.
+                    // (never beyond the deadline of a request that is already outstanding).
+                    let sent_at = Instant::now();
+                    let write_deadline = awaiting
+                        .map(|(sent, _)| sent + heartbeat_state.timeout)
+                        .unwrap_or(sent_at + heartbeat_state.timeout);
+                    let write = time::timeout_at(
+                        write_deadline,
+                        session.write_control_frame(Frame::control(Command::HeartRequest, 0)),
+                    )
+                    .await
+                    .unwrap_or_else(|_| {
+                        Err(AnyTlsError::Protocol(
+                            "keep-alive request could not be written within the timeout".into(),
+                        ))
+                    });
+                    if let Err(e) = write {
                         tracing::error!(
                             session_id = session_id,
                             "[Session] Failed to send HeartRequest: {}",
@@ -1257,6 +1303,9 @@ impl Session {
                             );
                         }
                         break;
+                    }
+                    if awaiting.is_none() {
+                        awaiting = Some((sent_at, responses));
                     }
 
                     tracing::trace!(
